@@ -588,6 +588,22 @@ pub fn len_bitflips(enc: &W) -> Vec<Corruption> {
     out
 }
 
+/// `n` zero bytes obtained from the allocator as untouched (lazily mapped) pages; None when the
+/// platform refuses such a reservation (then the >4 GiB cases are skipped, never failed)
+pub fn lazy_zeroed(n: usize) -> Option<Vec<u8>> {
+    let layout = std::alloc::Layout::from_size_align(n, 1).ok()?;
+    // SAFETY: alloc_zeroed returns either null or n initialised (zero) bytes with this layout,
+    // which is exactly what Vec<u8>::from_raw_parts(ptr, n, n) requires.
+    unsafe {
+        let p = std::alloc::alloc_zeroed(layout);
+        if p.is_null() {
+            None
+        } else {
+            Some(Vec::from_raw_parts(p, n, n))
+        }
+    }
+}
+
 /// a byte drawn half from a small set of values that code tends to compare against
 pub fn interesting_byte(r: &mut Rng) -> u8 {
     const I: [u8; 28] = [0, 1, 2, 3, 4, 5, 6, 0x0a, 0x0b, 0x0d, 0x0f, 0x10, 0x14, 0x15, 0x16, 0x17, 0x18, 0x20, 0x21, 0x40, 0x7f, 0x80, 0x81, 0xfe, 0xff, 0xfd, 0x41, 0x1a];
